@@ -340,39 +340,138 @@ theorem azCollectDist_inv {lt : ι → ι → Bool} (htri : Tri lt) (R : ι → 
       · exact azPushIfPresent_inv htri R Q hQ _ _ _ this.1 m hm
     | _ => exact hm
 
-/-- the entries `prepare` leaves in `azimuths_` are consistent when the (turned-round) azimuth values of a
-    pair are one value `az0 a b` that points from `a` at `b`, and the distances are the true ones -/
+/-! ### fix 8d96812: the values of a pair are brought next to the first one before the median -/
+
+/-- an exact azimuth value as it sits in the map: it points from `a` at `b` and lies in [0, 2π] -/
+def AzVal (T : Truth ι) (xN : ℝ) (a b : ι) (w : ℝ) : Prop := AzDir T xN a b w ∧ 0 ≤ w ∧ w ≤ 2 * π
+
+theorem azNormalize_val (lt : ι → ι → Bool) (T : Truth ι) (xN : ℝ) (f t : ι) (v : ℝ)
+    (h : AzDir T xN f t v) (h0 : 0 ≤ v) (h2 : v < 2 * π) :
+    AzVal T xN (azNormalize lt f t v).1 (azNormalize lt f t v).2.1 (azNormalize lt f t v).2.2 := by
+  unfold azNormalize
+  by_cases hl : lt t f = true
+  · simp only [hl, if_true, add_eq, pi_eq, C06L.twoPi_eq, sub_eq, lt_eq]
+    obtain ⟨r1, r2⟩ := azDir_reverse T xN t f v h
+    have := Real.pi_pos
+    by_cases hc : 2 * π < v + π
+    · simp only [hc, if_true]; exact ⟨r2, by linarith, by linarith⟩
+    · simp only [hc, if_false]; exact ⟨r1, by linarith, by linarith⟩
+  · simp only [hl]; exact ⟨h, h0, h2.le⟩
+
+theorem azDir_add_int (T : Truth ι) (xN : ℝ) (a b : ι) (w : ℝ) (h : AzDir T xN a b w) (k : ℤ) :
+    AzDir T xN a b (w + k * (2 * π)) := by
+  unfold AzDir at *
+  rw [show w + k * (2 * π) + xN = w + xN + k * (2 * π) by ring, Real.cos_add_int_mul_two_pi,
+    Real.sin_add_int_mul_two_pi]
+  exact h
+
+/-- two exact values of the same pair of distinct points that are within π of each other are equal -/
+theorem azDir_eq_of_near (T : Truth ι) (xN : ℝ) (a b : ι) (w1 w2 : ℝ) (hhd : hd T a b ≠ 0)
+    (h1 : AzDir T xN a b w1) (h2 : AzDir T xN a b w2) (hn : |w1 - w2| ≤ π) : w1 = w2 := by
+  have hc : Real.cos (w1 + xN) = Real.cos (w2 + xN) := mul_left_cancel₀ hhd (h1.1.trans h2.1.symm)
+  have hs : Real.sin (w1 + xN) = Real.sin (w2 + xN) := mul_left_cancel₀ hhd (h1.2.trans h2.2.symm)
+  have ha : ((w1 + xN : ℝ) : Real.Angle) = ((w2 + xN : ℝ) : Real.Angle) :=
+    Real.Angle.cos_sin_inj (by simpa using hc) (by simpa using hs)
+  obtain ⟨k, hk⟩ := Real.Angle.angle_eq_iff_two_pi_dvd_sub.mp ha
+  have hk' : w1 - w2 = 2 * π * k := by linarith
+  have hpi := Real.pi_pos
+  have k0 : k = 0 := by
+    by_contra hne
+    have h1k : (1 : ℝ) ≤ |(k : ℝ)| := by exact_mod_cast Int.one_le_abs hne
+    rw [hk', abs_mul, abs_of_pos (by positivity : (0:ℝ) < 2 * π)] at hn
+    nlinarith
+  rw [k0] at hk'; simp at hk'; linarith
+
+theorem seamDown_stop (v0 t : ℝ) (n : Nat) (h : ¬ π < t - v0) : seamDown v0 n t = t := by
+  cases n with
+  | zero => rfl
+  | succ n => simp [seamDown, h]
+
+theorem seamUp_stop (v0 t : ℝ) (n : Nat) (h : ¬ t - v0 < -π) : seamUp v0 n t = t := by
+  cases n with
+  | zero => rfl
+  | succ n => simp [seamUp, h]
+
+/-- one turn of each loop suffices for values in [0, 2π] -/
+theorem seam_near (v0 t : ℝ) (n : Nat) (hv0 : 0 ≤ v0) (hv2 : v0 ≤ 2 * π) (ht0 : 0 ≤ t) (ht2 : t ≤ 2 * π) :
+    ∃ k : ℤ, seamUp v0 (n + 1) (seamDown v0 (n + 1) t) = t + k * (2 * π) ∧
+      |seamUp v0 (n + 1) (seamDown v0 (n + 1) t) - v0| ≤ π := by
+  have hpi := Real.pi_pos
+  by_cases h1 : π < t - v0
+  · have e1 : seamDown v0 (n + 1) t = t - 2 * π := by
+      simp only [seamDown, sub_eq, lt_eq, pi_eq, h1, if_true, C06L.twoPi_eq]
+      exact seamDown_stop v0 _ n (by linarith)
+    rw [e1, seamUp_stop v0 _ (n + 1) (by linarith)]
+    exact ⟨-1, by push_cast; ring, abs_le.mpr ⟨by linarith, by linarith⟩⟩
+  · have e1 : seamDown v0 (n + 1) t = t := seamDown_stop v0 t (n + 1) h1
+    rw [e1]
+    by_cases h2 : t - v0 < -π
+    · have e2 : seamUp v0 (n + 1) t = t + 2 * π := by
+        simp only [seamUp, sub_eq, lt_eq, pi_eq, neg_eq, add_eq, h2, if_true, C06L.twoPi_eq]
+        exact seamUp_stop v0 _ n (by linarith)
+      rw [e2]
+      exact ⟨1, by push_cast; ring, abs_le.mpr ⟨by linarith, by linarith⟩⟩
+    · rw [seamUp_stop v0 t (n + 1) h2]
+      exact ⟨0, by simp, abs_le.mpr ⟨by linarith, by linarith⟩⟩
+
+/-- after the seam treatment all exact values of a pair of distinct points are the first one -/
+theorem azSeam_const (T : Truth ι) (xN : ℝ) (a b : ι) (n : Nat) (vs : List ℝ) (hhd : hd T a b ≠ 0)
+    (hv : ∀ w ∈ vs, AzVal T xN a b w) :
+    ∃ c, AzDir T xN a b c ∧ ∀ x ∈ azSeam (n + 1) vs, x = c := by
+  cases vs with
+  | nil =>
+    exact ⟨Lin.brg (T.x b - T.x a) (T.y b - T.y a) - xN,
+      azDir_of_isAzimuth T xN a b _ ⟨0, by simp⟩, fun x hx => by simp [azSeam] at hx⟩
+  | cons v0 rest =>
+    obtain ⟨d0, a0, b0⟩ := hv v0 (by simp)
+    refine ⟨v0, d0, fun x hx => ?_⟩
+    simp only [azSeam, List.mem_map] at hx
+    obtain ⟨t, ht, rfl⟩ := hx
+    obtain ⟨dt, at0, bt⟩ := hv t ht
+    obtain ⟨k, hk, hnear⟩ := seam_near v0 t n a0 b0 at0 bt
+    have hd' : AzDir T xN a b (seamUp v0 (n + 1) (seamDown v0 (n + 1) t)) := by
+      rw [hk]; exact azDir_add_int T xN a b t dt k
+    exact azDir_eq_of_near T xN a b _ _ hhd hd' d0 hnear
+
+/-- the entries `prepare` leaves in `azimuths_` are consistent when every azimuth is exact (its value in
+    [0, 2π), as the constructor of `Azimuth` leaves it) and the distances are the true ones — at full strength:
+    no condition on how the values of a pair relate (fix 8d96812) -/
 theorem azPrepare_ok {lt : ι → ι → Bool} (htri : Tri lt) (T : Truth ι) (xN : ℝ) (pd : PD ι ℝ) (obs : List (Obs ι ℝ))
-    (az0 : ι → ι → ℝ) (haz : ∀ a b, AzDir T xN a b (az0 a b))
-    (hobsA : ∀ f t v, Obs.azimuth f t v ∈ obs →
-      (azNormalize lt f t v).2.2 = az0 (azNormalize lt f t v).1 (azNormalize lt f t v).2.1)
+    (n : Nat)
+    (hobsA : ∀ f t v, Obs.azimuth f t v ∈ obs → AzDir T xN f t v ∧ 0 ≤ v ∧ v < 2 * π)
     (hobsD : ∀ f t v, Obs.distance f t v ∈ obs → v = hd T f t) :
-    ∀ e ∈ azPrepare lt pd obs, AzOK T xN e := by
-  have h1 := azCollect_inv htri (fun a b w => w = az0 a b) obs hobsA
-  -- after removal and the first median
-  have h2 : AzInv (fun a b w => w = hd T a b) (fun e => e.values = [] → (e.value = az0 e.a e.b ∧ e.distance = 0))
-      ((azRemoveKnown pd (azCollect lt obs)).map azMedianValue) := by
+    ∀ e ∈ azPrepare (n + 1) lt pd obs, AzOK T xN e := by
+  have h1 := azCollect_inv htri (AzVal T xN) obs
+    (fun f t v ho => azNormalize_val lt T xN f t v (hobsA f t v ho).1 (hobsA f t v ho).2.1 (hobsA f t v ho).2.2)
+  have hval : ∀ e0 ∈ azRemoveKnown pd (azCollect lt obs), hd T e0.a e0.b ≠ 0 →
+      AzDir T xN e0.a e0.b (azMedianValue (n + 1) e0).value := by
+    intro e0 he0 hhd
+    have he0' : e0 ∈ azCollect lt obs := (List.mem_filter.mp he0).1
+    obtain ⟨⟨hne, _⟩, hv⟩ := h1 e0 he0'
+    obtain ⟨c, hc, hall⟩ := azSeam_const T xN e0.a e0.b n e0.values hhd hv
+    have hne' : azSeam (n + 1) e0.values ≠ [] := by
+      cases hvs : e0.values with
+      | nil => exact absurd hvs hne
+      | cons v0 r => simp [azSeam]
+    simp only [azMedianValue]
+    rw [C06L.median2_const _ c hne' hall]; exact hc
+  have h2 : AzInv (fun a b w => w = hd T a b) (fun e => e.values = [] → e.distance = 0)
+      ((azRemoveKnown pd (azCollect lt obs)).map (azMedianValue (n + 1))) := by
     intro e he
     obtain ⟨e0, he0, rfl⟩ := List.mem_map.mp he
     have he0' : e0 ∈ azCollect lt obs := (List.mem_filter.mp he0).1
-    obtain ⟨⟨hne, hd0⟩, hv⟩ := h1 e0 he0'
-    refine ⟨fun _ => ⟨?_, hd0⟩, fun w hw => by simp [azMedianValue] at hw⟩
-    simp only [azMedianValue]
-    exact C06L.median2_const _ _ hne hv
-  have h3 := azCollectDist_inv htri (fun a b w => w = hd T a b)
-    (fun e => e.values = [] → (e.value = az0 e.a e.b ∧ e.distance = 0))
+    obtain ⟨⟨_, hd0⟩, _⟩ := h1 e0 he0'
+    exact ⟨fun _ => hd0, fun w hw => by simp [azMedianValue] at hw⟩
+  have h3 := azCollectDist_inv htri (fun a b w => w = hd T a b) (fun e => e.values = [] → e.distance = 0)
     (fun e w q h => by simp at h) obs
     (fun f t v ho => ⟨hobsD f t v ho, (hobsD f t v ho).trans (hd_symm T f t)⟩) _ h2
-  -- the value field is never touched by the distance loop: re-establish it through a second invariant
-  have h4 : AzInv (fun _ _ _ => True) (fun e => e.value = az0 e.a e.b)
-      (azCollectDist lt obs ((azRemoveKnown pd (azCollect lt obs)).map azMedianValue)) := by
-    apply azCollectDist_inv htri (fun _ _ _ => True) (fun e => e.value = az0 e.a e.b)
+  have h4 : AzInv (fun _ _ _ => True) (fun e => hd T e.a e.b ≠ 0 → AzDir T xN e.a e.b e.value)
+      (azCollectDist lt obs ((azRemoveKnown pd (azCollect lt obs)).map (azMedianValue (n + 1)))) := by
+    apply azCollectDist_inv htri (fun _ _ _ => True) (fun e => hd T e.a e.b ≠ 0 → AzDir T xN e.a e.b e.value)
       (fun e w q => q) obs (fun _ _ _ _ => ⟨trivial, trivial⟩)
     intro e he
     obtain ⟨e0, he0, rfl⟩ := List.mem_map.mp he
-    have he0' : e0 ∈ azCollect lt obs := (List.mem_filter.mp he0).1
-    obtain ⟨⟨hne, _⟩, hv⟩ := h1 e0 he0'
-    exact ⟨by simp only [azMedianValue]; exact C06L.median2_const _ _ hne hv, fun _ _ => trivial⟩
+    exact ⟨hval e0 he0, fun _ _ => trivial⟩
   intro e he
   unfold azPrepare at he
   obtain ⟨e1, he1, rfl⟩ := List.mem_map.mp he
@@ -381,36 +480,36 @@ theorem azPrepare_ok {lt : ι → ι → Bool} (htri : Tri lt) (T : Truth ι) (x
   unfold azMedianDistance
   by_cases hemp : e1.values = []
   · simp only [hemp, List.isEmpty_nil, if_true]
-    intro hd0; exact absurd (q hemp).2 hd0
+    intro hd0; exact absurd (q hemp) hd0
   · have : e1.values.isEmpty = false := by simpa using hemp
     simp only [this]
-    intro _
-    refine ⟨C06L.median2_const _ _ hemp r, ?_⟩
-    simp only [qv]; exact haz _ _
+    intro hd0
+    have hm := C06L.median2_const _ _ hemp r
+    refine ⟨hm, ?_⟩
+    exact qv (by rw [← hm]; exact hd0)
 
 /-- `prepared_ ⇒` the stored entries are consistent -/
 def AzAlgOK (T : Truth ι) (xN : ℝ) (alg : AzAlg ι ℝ) : Prop := alg.prepared = true → ∀ e ∈ alg.azs, AzOK T xN e
 
 theorem azExecute_sound {lt : ι → ι → Bool} (htri : Tri lt) (T : Truth ι) (xN : ℝ) (od : List (Cluster ι ℝ))
-    (alg : AzAlg ι ℝ) (st : St ι ℝ)
-    (az0 : ι → ι → ℝ) (haz : ∀ a b, AzDir T xN a b (az0 a b))
-    (hobsA : ∀ f t v, Obs.azimuth f t v ∈ spObs od →
-      (azNormalize lt f t v).2.2 = az0 (azNormalize lt f t v).1 (azNormalize lt f t v).2.1)
+    (alg : AzAlg ι ℝ) (st : St ι ℝ) (n : Nat)
+    (hobsA : ∀ f t v, Obs.azimuth f t v ∈ spObs od → AzDir T xN f t v ∧ 0 ≤ v ∧ v < 2 * π)
     (hobsD : ∀ f t v, Obs.distance f t v ∈ spObs od → v = hd T f t)
     (halg : AzAlgOK T xN alg) (hs : SoundXY T st.pd) :
-    SoundXY T (azExecute lt xN od alg st).2.pd ∧ AzAlgOK T xN (azExecute lt xN od alg st).1 := by
-  have hazs : ∀ e ∈ (if alg.prepared then alg.azs else azPrepare lt st.pd (spObs od)), AzOK T xN e := by
+    SoundXY T (azExecute (n + 1) lt xN od alg st).2.pd ∧ AzAlgOK T xN (azExecute (n + 1) lt xN od alg st).1 := by
+  have hazs : ∀ e ∈ (if alg.prepared then alg.azs else azPrepare (n + 1) lt st.pd (spObs od)), AzOK T xN e := by
     by_cases hp : alg.prepared = true
     · simp only [hp, if_true]; exact halg hp
-    · simp only [hp]; exact azPrepare_ok htri T xN st.pd (spObs od) az0 haz hobsA hobsD
+    · simp only [hp]; exact azPrepare_ok htri T xN st.pd (spObs od) n hobsA hobsD
   refine ⟨azFold_sound T xN _ st hs hazs, fun _ e he => ?_⟩
   simp only [azExecute, azRemoveKnown] at he
   exact hazs e (List.mem_filter.mp he).1
 
-theorem azExecute_mono (lt : ι → ι → Bool) (xN : ℝ) (od : List (Cluster ι ℝ)) (alg : AzAlg ι ℝ) (st : St ι ℝ) :
-    KeepXY st.pd (azExecute lt xN od alg st).2.pd ∧ SameZ st.pd (azExecute lt xN od alg st).2.pd ∧
-    Sub st.missXY (azExecute lt xN od alg st).2.missXY ∧ (azExecute lt xN od alg st).2.missZ = st.missZ ∧
-    (azExecute lt xN od alg st).2.candZ = st.candZ :=
+theorem azExecute_mono (fuel : Nat) (lt : ι → ι → Bool) (xN : ℝ) (od : List (Cluster ι ℝ)) (alg : AzAlg ι ℝ)
+    (st : St ι ℝ) :
+    KeepXY st.pd (azExecute fuel lt xN od alg st).2.pd ∧ SameZ st.pd (azExecute fuel lt xN od alg st).2.pd ∧
+    Sub st.missXY (azExecute fuel lt xN od alg st).2.missXY ∧ (azExecute fuel lt xN od alg st).2.missZ = st.missZ ∧
+    (azExecute fuel lt xN od alg st).2.candZ = st.candZ :=
   azFold_mono xN _ st
 
 /-! ## AcordHdiff -/
@@ -802,6 +901,23 @@ def IsZenith (h v s za : ℝ) : Prop := 0 < s ∧ h = s * Real.sin za ∧ v = s 
 
 theorem zd_pi : (zdPi : ℝ) = π := by simp [zdPi, Real.arccos_neg_one]
 
+/-- a zenith reading in either face, as the linearisation accepts it (C05 `Lin.zenithComputed`:
+    `if π < value then 2π − zenith else zenith`): the first-face angle `za ∈ (0, π)` or `2π − za` -/
+def IsZenithObs (h v s r : ℝ) : Prop :=
+  ∃ za, IsZenith h v s za ∧ 0 < za ∧ za < π ∧ (r = za ∨ r = 2 * π - za)
+
+/-- fix 50e5b35: the reduction recovers the first-face angle -/
+theorem zdZenith_eq (h v s r : ℝ) (ho : IsZenithObs h v s r) :
+    ∃ za, IsZenith h v s za ∧ zdZenith r = za := by
+  obtain ⟨za, hz, h0, hp, hr⟩ := ho
+  refine ⟨za, hz, ?_⟩
+  unfold zdZenith
+  simp only [zd_pi, lt_eq, sub_eq, mul_eq, two_eq]
+  rcases hr with rfl | rfl
+  · simp [not_lt.mpr hp.le]
+  · have : π < 2 * π - za := by linarith
+    simp only [this, if_true]; ring
+
 theorem zd_tan (h v s za : ℝ) (hz : IsZenith h v s za) : h * Real.tan (π / 2 - za) = v := by
   obtain ⟨_, hh, hv, hs⟩ := hz
   rw [Real.tan_pi_div_two_sub, Real.tan_eq_sin_div_cos, hh, hv, inv_div]
@@ -847,12 +963,12 @@ theorem mem_zdSDistances (keep : ι → Bool) (obs : List (Obs ι ℝ)) (d : ι 
   | _ => simp at hm
 
 /-- the observations of one stand-point cluster are the exact functions of the true coordinates:
-    zenith angles (first face) are sighted from the station, with their instrument / target heights; a slope
+    zenith angles (either face) are sighted from the station, with their instrument / target heights; a slope
     distance to the same target was measured along the same line (same instrument / target heights);
     horizontal distances are the true ones -/
 def ZdOK (T : Truth ι) (station : ι) (obs : List (Obs ι ℝ)) : Prop :=
   (∀ f t v fdh tdh, Obs.zangle f t v fdh tdh ∈ obs → f = station ∧
-     ∃ s, IsZenith (hd T station t) (T.z t + tdh - (T.z station + fdh)) s v ∧
+     ∃ s, IsZenithObs (hd T station t) (T.z t + tdh - (T.z station + fdh)) s v ∧
        ∀ f' v' a b, Obs.sdistance f' t v' a b ∈ obs → v' = s) ∧
   (∀ f t v, Obs.distance f t v ∈ obs → v = hd T station t)
 
@@ -867,7 +983,8 @@ theorem zdTargetHeights_sound (T : Truth ι) (pd : PD ι ℝ) (station : ι) (ob
     (hxy : SoundXY T pd) (hok : ZdOK T station obs) (za : ZA ι ℝ) (hza : za ∈ zdAngles keep obs) :
     ∀ c ∈ zdTargetHeights pd (T.z station) (zdDistances keep obs) (zdSDistances keep obs) za, c.2 = T.z c.1 := by
   obtain ⟨_, hzo⟩ := mem_zdAngles keep obs za hza
-  obtain ⟨hfs, s, hz, hsd⟩ := hok.1 _ _ _ _ _ hzo
+  obtain ⟨hfs, s, hzo', hsd⟩ := hok.1 _ _ _ _ _ hzo
+  obtain ⟨za1, hz, hred⟩ := zdZenith_eq _ _ _ _ hzo'
   intro c hc
   unfold zdTargetHeights at hc
   simp only [List.mem_append, List.mem_map, List.mem_filter, decide_eq_true_eq] at hc
@@ -875,18 +992,18 @@ theorem zdTargetHeights_sound (T : Truth ι) (pd : PD ι ℝ) (station : ι) (ob
   · obtain ⟨_, f, hdo⟩ := mem_zdDistances keep obs d hd1
     have hv := hok.2 _ _ _ hdo
     simp only [add_eq, mul_eq, sub_eq, div_eq, two_eq, tan_eq, zd_pi]
-    rw [hv, ← hdt, zd_tan _ _ _ _ hz]; ring
+    rw [hv, ← hdt, hred, zd_tan _ _ _ _ hz]; ring
   · obtain ⟨_, f, a, b, hdo⟩ := mem_zdSDistances keep obs d hd1
     have hv := hsd _ _ _ _ (hdt ▸ hdo)
     simp only [add_eq, mul_eq, sub_eq, div_eq, two_eq, sin_eq, zd_pi]
-    rw [hv, ← hdt, zd_sin _ _ _ _ hz]; ring
+    rw [hv, ← hdt, hred, zd_sin _ _ _ _ hz]; ring
   · split at hc
     · rename_i hb
       simp only [Bool.and_eq_true] at hb
       simp only [List.mem_singleton] at hc
       subst hc
       simp only [add_eq, mul_eq, sub_eq, div_eq, two_eq, tan_eq, zd_pi]
-      rw [zdCoordDist_eq T pd za hxy hb.1 hb.2, hfs, zd_tan _ _ _ _ hz]; ring
+      rw [zdCoordDist_eq T pd za hxy hb.1 hb.2, hfs, hred, zd_tan _ _ _ _ hz]; ring
     · simp at hc
 
 theorem zdStationHeights_sound (T : Truth ι) (pd : PD ι ℝ) (station : ι) (obs : List (Obs ι ℝ))
@@ -895,7 +1012,8 @@ theorem zdStationHeights_sound (T : Truth ι) (pd : PD ι ℝ) (station : ι) (o
     ∀ h ∈ zdStationHeights pd (zdDistances (fun t => (pd t).bz) obs) (zdSDistances (fun t => (pd t).bz) obs) za,
       h = T.z station := by
   obtain ⟨hkt, hzo⟩ := mem_zdAngles _ obs za hza
-  obtain ⟨hfs, s, hz, hsd⟩ := hok.1 _ _ _ _ _ hzo
+  obtain ⟨hfs, s, hzo', hsd⟩ := hok.1 _ _ _ _ _ hzo
+  obtain ⟨za1, hz, hred⟩ := zdZenith_eq _ _ _ _ hzo'
   intro c hc
   unfold zdStationHeights at hc
   simp only [List.mem_append, List.mem_map, List.mem_filter, decide_eq_true_eq] at hc
@@ -903,18 +1021,18 @@ theorem zdStationHeights_sound (T : Truth ι) (pd : PD ι ℝ) (station : ι) (o
   · obtain ⟨hk, f, hdo⟩ := mem_zdDistances _ obs d hd1
     have hv := hok.2 _ _ _ hdo
     simp only [add_eq, mul_eq, sub_eq, div_eq, two_eq, tan_eq, zd_pi]
-    rw [hv, hzs _ hk, ← hdt, zd_tan _ _ _ _ hz]; ring
+    rw [hv, hzs _ hk, ← hdt, hred, zd_tan _ _ _ _ hz]; ring
   · obtain ⟨hk, f, a, b, hdo⟩ := mem_zdSDistances _ obs d hd1
     have hv := hsd _ _ _ _ (hdt ▸ hdo)
     simp only [add_eq, mul_eq, sub_eq, div_eq, two_eq, sin_eq, zd_pi]
-    rw [hv, hzs _ hk, ← hdt, zd_sin _ _ _ _ hz]; ring
+    rw [hv, hzs _ hk, ← hdt, hred, zd_sin _ _ _ _ hz]; ring
   · split at hc
     · rename_i hb
       simp only [Bool.and_eq_true] at hb
       simp only [List.mem_singleton] at hc
       subst hc
       simp only [add_eq, mul_eq, sub_eq, div_eq, two_eq, tan_eq, zd_pi]
-      rw [zdCoordDist_eq T pd za hxy hb.1 hb.2, hfs, hzs _ hkt, zd_tan _ _ _ _ hz]; ring
+      rw [zdCoordDist_eq T pd za hxy hb.1 hb.2, hfs, hzs _ hkt, hred, zd_tan _ _ _ _ hz]; ring
     · simp at hc
 
 theorem zdTargets_sound (T : Truth ι) (pd : PD ι ℝ) (station : ι) (obs : List (Obs ι ℝ))
@@ -1151,28 +1269,22 @@ theorem zdRound_mono (od : List (Cluster ι ℝ)) (alg : ZdAlg) (st : St ι ℝ)
   rw [e1, e2, e3] at this
   exact this
 
-/-! ## the two places where exact data are *not* reproduced (findings of round 3) -/
+/-! ## regressions of the two findings of round 3 (fixed by 8d96812 and 50e5b35) -/
 
-/-- second-face zenith readings (`2π − za`, accepted by the linearisation: `if (value > π) za = 2π − za`) enter
-    AcordZderived unreduced: the height difference comes out with the wrong sign -/
-theorem zd_tan_face2 (h v s za : ℝ) (hz : IsZenith h v s za) : h * Real.tan (π / 2 - (2 * π - za)) = -v := by
-  obtain ⟨_, hh, hv, hs⟩ := hz
-  have e : π / 2 - (2 * π - za) = π / 2 - (-za) - 2 * π := by ring
-  rw [Real.tan_eq_sin_div_cos, e, Real.sin_sub_two_pi, Real.cos_sub_two_pi, Real.sin_pi_div_two_sub,
-    Real.cos_pi_div_two_sub, Real.cos_neg, Real.sin_neg, hh, hv]
-  field_simp
-
-theorem zd_face2_defect (T : Truth ι) (pd : PD ι ℝ) (f t : ι) (stZ fdh tdh za s : ℝ)
-    (hz : IsZenith (hd T f t) (T.z t + tdh - (T.z f + fdh)) s za) (hb : (pd f).bxy = false) :
+/-- second-face reading `2π − za`: the candidate is the true height `stZ + v + dh` (it was `stZ − v + dh`) -/
+theorem zd_face2_regression (T : Truth ι) (pd : PD ι ℝ) (f t : ι) (stZ fdh tdh za s : ℝ)
+    (hz : IsZenith (hd T f t) (T.z t + tdh - (T.z f + fdh)) s za) (h0 : 0 < za) (hp : za < π)
+    (hb : (pd f).bxy = false) :
     zdTargetHeights pd stZ [(t, hd T f t)] [] ⟨f, t, 2 * π - za, fdh, tdh⟩ =
-      [(t, stZ - (T.z t + tdh - (T.z f + fdh)) + (fdh - tdh))] := by
+      [(t, stZ + (T.z t + tdh - (T.z f + fdh)) + (fdh - tdh))] := by
+  obtain ⟨za1, hz1, hred⟩ := zdZenith_eq _ _ _ (2 * π - za) ⟨za, hz, h0, hp, Or.inr rfl⟩
   unfold zdTargetHeights
   simp only [hb, Bool.false_and, decide_true, List.filter_cons_of_pos, List.filter_nil, List.map_cons, List.map_nil,
     List.append_nil, add_eq, mul_eq, sub_eq, div_eq, two_eq, tan_eq, zd_pi]
   simp only [Bool.false_eq_true, if_false, List.append_nil]
-  rw [zd_tan_face2 _ _ _ _ hz]; ring_nf
+  rw [hred, zd_tan _ _ _ _ hz1]
 
-/-- the seam of `prepare`: the reverse azimuth π of a forward azimuth 0 is turned round to 2π, not 0 … -/
+/-- the reverse azimuth π of a forward azimuth 0 is still turned round to 2π … -/
 theorem az_seam_normalize (lt : ι → ι → Bool) (a b : ι) (h : lt a b = true) :
     azNormalize lt b a (π : ℝ) = (a, b, 2 * π) := by
   unfold azNormalize
@@ -1181,19 +1293,37 @@ theorem az_seam_normalize (lt : ι → ι → Bool) (a b : ι) (h : lt a b = tru
   simp only [this, if_false]
   congr 2; ring
 
-/-- … and the median of the two representations of the same direction is the opposite direction -/
-theorem az_seam_median : median2 ([0, 2 * π] : List ℝ) = π := by
-  have hpos : (0 : ℝ) ≤ 2 * π := by positivity
-  have hs : sort ([0, 2 * π] : List ℝ) = [0, 2 * π] := by
-    simp [sort, insertSorted, hpos]
-  unfold median2
-  simp only [hs]
-  simp [nth]
+/-- … but the seam treatment brings it back next to the first value: the median is 0 (it was π) -/
+theorem az_seam_regression (n : Nat) : median2 (azSeam (n + 1) ([0, 2 * π] : List ℝ)) = 0 := by
+  have hpi := Real.pi_pos
+  have e0 : seamUp (0:ℝ) (n + 1) (seamDown 0 (n + 1) 0) = 0 := by
+    rw [seamDown_stop 0 0 (n + 1) (by simp; linarith), seamUp_stop 0 0 (n + 1) (by simp; linarith)]
+  have e1 : seamUp (0:ℝ) (n + 1) (seamDown 0 (n + 1) (2 * π)) = 0 := by
+    have : seamDown (0:ℝ) (n + 1) (2 * π) = 0 := by
+      have h1 : π < 2 * π - 0 := by linarith
+      simp only [seamDown, sub_eq, lt_eq, pi_eq, h1, if_true, C06L.twoPi_eq]
+      rw [show 2 * π - 2 * π = (0:ℝ) by ring]
+      exact seamDown_stop 0 0 n (by simp; linarith)
+    rw [this, seamUp_stop 0 0 (n + 1) (by simp; linarith)]
+  have hs : azSeam (n + 1) ([0, 2 * π] : List ℝ) = [0, 0] := by
+    simp only [azSeam, List.map_cons, List.map_nil, e0, e1]
+  rw [hs]
+  exact C06L.median2_const _ 0 (by simp) (by simp)
 
 /-- the zenith angle as C05 states it (`Lin.zenith = arccos (dZ / sdist)`) is a first-face `IsZenith`
     whenever the sight is not vertical -/
 theorem isZenith_arccos (h v : ℝ) (hh : 0 < h) :
-    IsZenith h v (Real.sqrt (h * h + v * v)) (Real.arccos (v / Real.sqrt (h * h + v * v))) := by
+    IsZenith h v (Real.sqrt (h * h + v * v)) (Real.arccos (v / Real.sqrt (h * h + v * v))) ∧
+    0 < Real.arccos (v / Real.sqrt (h * h + v * v)) ∧ Real.arccos (v / Real.sqrt (h * h + v * v)) < π := by
+  suffices hmain : IsZenith h v (Real.sqrt (h * h + v * v)) (Real.arccos (v / Real.sqrt (h * h + v * v))) by
+    have hs := hmain.2.2.2
+    refine ⟨hmain, ?_, ?_⟩
+    · rcases (Real.arccos_nonneg (v / Real.sqrt (h * h + v * v))).lt_or_eq with h1 | h1
+      · exact h1
+      · rw [← h1] at hs; simp at hs
+    · rcases (Real.arccos_le_pi (v / Real.sqrt (h * h + v * v))).lt_or_eq with h1 | h1
+      · exact h1
+      · rw [h1] at hs; simp at hs
   have hpos : 0 < h * h + v * v := by nlinarith [mul_pos hh hh, mul_self_nonneg v]
   have hs : 0 < Real.sqrt (h * h + v * v) := Real.sqrt_pos.mpr hpos
   have hss : Real.sqrt (h * h + v * v) * Real.sqrt (h * h + v * v) = h * h + v * v := Real.mul_self_sqrt hpos.le
